@@ -193,9 +193,29 @@ def state_probe():
 # ----------------------------------------------------------------------------
 
 
+class CallTimeout(Exception):
+  """A library call did not return within the per-call watchdog."""
+
+
+_CALL_TIMEOUT = [0]
+
+
+def _alarm(signum, frame):
+  raise CallTimeout("call did not return within %d s" % _CALL_TIMEOUT[0])
+
+
 def _call(fn, *args):
+  import signal
+  limit = _CALL_TIMEOUT[0]
+  if limit:
+    signal.signal(signal.SIGALRM, _alarm)
+    signal.alarm(limit)
   try:
-    ret = fn(*args)
+    try:
+      ret = fn(*args)
+    finally:
+      if limit:
+        signal.alarm(0)
     return {"type": type(ret).__name__,
             "val": bool(ret) if isinstance(ret, bool) else repr(ret)[:80]}
   except Exception as ex:  # pylint: disable=broad-except
@@ -252,6 +272,7 @@ def issuer_oracle(batch_arts):
 
 
 def subject_segment(plan, start, pool_bytes):
+  _CALL_TIMEOUT[0] = int(plan.get("call_timeout", 600))
   env = Env(plan)
   kind = plan["kind"]
   pool_arts = plan["pool"]
@@ -300,6 +321,15 @@ def subject_segment(plan, start, pool_bytes):
       ev["fired"] = (len(env.res.fired) + env.storage_counters.get("fired", 0)
                      + env.alloc.fired - fired0)
       ev["state_after"] = state_probe()
+      hung = [x for x in (ev.get("ret_clean"), ev.get("ret"))
+              if x and x.get("exc") == "CallTimeout"]
+      if hung:
+        # interrupted in the middle of a call: continue in a new process
+        ev["hung"] = True
+        events.append(ev)
+        timing.append([i, name, round(_real_time.time() - t_op, 2)])
+        nxt = i + 1 if i + 1 < len(ops) else None
+        break
     elif name == "clone":
       for j in op["batch"]:
         pool[j].test_info.Clear()
@@ -388,6 +418,7 @@ def _call_list(fn, *args):
 
 def fresh_query(plan, op, arts):
   """Runs op (check / check_all) on clean copies of arts; returns V."""
+  _CALL_TIMEOUT[0] = int(plan.get("call_timeout", 600))
   env = Env(plan)
   kind = plan["kind"]
   clean = [artifacts.to_pb(a) for a in arts]
